@@ -145,14 +145,14 @@ fn gen_guest(rng: &mut Rng) -> GuestSpec {
     let mut pool: Vec<u8> = (1..=63u8).filter(|v| !(9..=11).contains(v)).collect();
     rng.shuffle(&mut pool);
     for v in pool.iter().take(rng.range(1, 4) as usize) {
-        handlers.push(Handler { vector: *v, kind: match rng.below(4) { 0 => HandlerKind::Empty, 1 => HandlerKind::Unmask(rng.range(1, 10) as u16), 2 => HandlerKind::Nested(rng.range(1, 3) as u8), _ => HandlerKind::Count } });
+        handlers.push(Handler { vector: *v, kind: match rng.below(4) { 0 => HandlerKind::Empty, 1 => HandlerKind::Unmask(rng.range(1, 10) as u16), 2 => HandlerKind::Nested(rng.range(1, 3) as u8), _ => HandlerKind::Count }, at_zero: false });
     }
     for n in 1..=3u8 {
-        handlers.push(Handler { vector: 8 + n, kind: HandlerKind::Count });
+        handlers.push(Handler { vector: 8 + n, kind: HandlerKind::Count, at_zero: false });
     }
     for v in [36u8, 37, 39] {
         if !handlers.iter().any(|h| h.vector == v) {
-            handlers.push(Handler { vector: v, kind: HandlerKind::Count });
+            handlers.push(Handler { vector: v, kind: HandlerKind::Count, at_zero: false });
         }
     }
     let mut blocks = Vec::new();
